@@ -442,7 +442,12 @@ class EventLog(Entity):
             # Reschedule
             from happysimulator.core.temporal import Instant
 
-            next_time = Instant.from_seconds(self.now.to_seconds() + self._retention_check_interval)
+            # Integer-nanosecond arithmetic (Instant + seconds): the round trip
+            # through float seconds could truncate back to the current instant
+            # for very small intervals and re-arm the check at a frozen clock.
+            next_time = self.now + self._retention_check_interval
+            if not next_time > self.now:
+                next_time = Instant(self.now.nanoseconds + 1)
             return [
                 Event(
                     time=next_time,
